@@ -39,7 +39,7 @@ BASES = [
      {"aggfunc": ["mean", "median", "min", "max"]}),
     (["reduce", {"strategy": "recursive", "window_length": 3, "reg": "lin"}], {"window_length": [2, 3, 4]}),
 ]
-METRICS = [None, "mape", "mse", "asym_fn", "neg_mae", "neg_asym", "mae"]
+METRICS = [None, "mape", "mse", "asym_fn", "neg_mae", "neg_asym", "mae", "rmspe", "mdspe", "rmdspe_sym"]
 
 
 def cases(tier, seed):
@@ -140,6 +140,7 @@ def run_case(case, ctx):
                 # split's test points, metric(y_true, y_pred)), independent of evaluate()
                 from sktime.forecasting.base import ForecastingHorizon
                 fold_scores, g = [], None
+                mref = zoo.metric_reference(case["scoring"]) or metric      # the metric's textbook value, where the metric is the package's own
                 try:
                     for k, (tr, te) in enumerate(zoo.build_cv(case["cv"]).split(y)):
                         y_tr, y_te = y.iloc[tr], y.iloc[te]
@@ -149,7 +150,7 @@ def run_case(case, ctx):
                             g.fit(y_tr.copy(), None if X is None else X.iloc[tr].copy(), fh=fha)
                         else:
                             g.update(y_tr.copy(), None if X is None else X.iloc[tr].copy())
-                        fold_scores.append(float(metric(y_te, g.predict(fha, None if X is None else X.iloc[tr[-1] + 1: te[-1] + 1].copy()))))
+                        fold_scores.append(float(mref(y_te, g.predict(fha, None if X is None else X.iloc[tr[-1] + 1: te[-1] + 1].copy()))))
                 except Exception as e:  # noqa
                     ctx.tag("honest-fold-loop-failed:" + type(e).__name__)
                     fold_scores = None
